@@ -195,6 +195,7 @@ CLASSIFIED = [
     (L + 'Matrix::Matrix', 'size() != columns', 'loop-guard: ragged matrix entries'),
     (L + 'Matrix::Matrix', 'valid_dimension', 'loop-guard: block dimensions'),
     (L + 'Eigenvalues', 'true', 'give-up: QR iteration cap'),
+    (L + 'Eigenvalues', '!(EXISTS iteration', 'give-up: QR iteration cap'),
     (L + 'natural_units::In_Units', 'size()', 'loop-guard: row length vs number of units'),
     (L + 'Interpolation::Locate', 'domain', 'data-guard: argument outside the domain by more than the edge tolerance (own rule C10.e)'),
     (L + 'Interpolation::Interpolation', 'size() != 2', 'loop-guard: two-column table'),
@@ -202,6 +203,7 @@ CLASSIFIED = [
     (L + 'Interpolation_2D::Interpolation_2D', 'x.size() * y.size()', 'data-guard: grid is a full product'),
     (L + 'Interpolation_2D::Interpolation_2D', 'data_table[i]', 'loop-guard: table order'),
     (L + 'Brent::Minimize', 'true', 'give-up: Brent iteration cap'),
+    (L + 'Brent::Minimize', '!(EXISTS iteration', 'give-up: Brent iteration cap'),
     (L + 'Minimization::minimize', 'nfunc', 'give-up: Nelder-Mead evaluation cap'),
     (L + 'Rejection_Sampling', 'count % 1000', 'give-up: rejection sampling too inefficient'),
     (L + 'Rejection_Sampling', 'PDF(x) < 0.0', 'data-guard: PDF not a non-negative number'),
